@@ -1,5 +1,6 @@
 // Poisoned variant of field/pool, substituted by /verif with `go build -overlay` for one build of the
-// C18 check: every Get returns a *big.Int holding garbage, as if another caller had just Put it back.
+// C18 check: every Get returns a *big.Int holding garbage, as if another caller had just Put it back, and every Put
+// scrambles the value it releases.
 // Correct users overwrite the value before reading it, so results must not change.
 package pool
 
@@ -38,5 +39,10 @@ func (bigIntPool) Put(v *big.Int) {
 	if v == nil {
 		return // see https://github.com/Consensys/gnark-crypto/issues/316
 	}
+	// the object belongs to the pool from here on: a caller that still reads it after Put (use after release) sees
+	// garbage deterministically, not only when another goroutine happens to take it
+	n := poisonCtr.Add(1)
+	v.SetUint64(0xFEEDFACE0BADF00D ^ n)
+	v.Lsh(v, uint(200+n%500))
 	_bigIntPool.Put(v)
 }
